@@ -14,7 +14,7 @@ ASSUMPTIONS = ["floating point is abstracted to exact real arithmetic in the the
 
 
 def run(res, tier, seed, broken):
-    rules.run(res, tier, seed, broken, ["C02"], False)
+    rules.run(res, tier, seed, broken, ["C02"], False, containers=True)
 
 
 def replay(rp):
